@@ -220,6 +220,24 @@ fn gen_case(t: &mut Tape) -> Pair {
                 }
             }
         }
+        5 if t.chance(1, 4) => {
+            // the read ended inside a multi-byte character that follows the CR directly: the lead byte (and perhaps a
+            // continuation byte) is there, the rest arrives with the trailer
+            let c = *t.pick(&['\u{e9}', '\u{20ac}', '\u{1f600}', '\u{a0}']);
+            let mut buf = [0u8; 4];
+            let enc = c.encode_utf8(&mut buf).as_bytes().to_vec();
+            let keep = 1 + t.below(enc.len() as u32 - 1) as usize;
+            let line = gen::gen_valid_line(t, true);
+            let mut x = line[..line.len() - 1].to_vec();
+            x.extend_from_slice(&enc[..keep]);
+            let mut tr = enc[keep..].to_vec();
+            match t.below(3) {
+                0 => {}
+                1 => tr.push(0xff),
+                _ => tr.extend_from_slice(b"abc\r\n"),
+            }
+            return Pair(x, tr);
+        }
         5 => {
             // valid UTF-8 with a multi-byte character right after (or before) the first CR: closed for the &str entry points too
             gen::gen_multibyte_cr(t).into_bytes()
